@@ -25,7 +25,10 @@ RULE = ("cases = ordered pairs of valid DFAs over one alphabet (and single DFAs 
         "DFA), partial×complete mixes; non-trivial = both have ≥2 reachable states and both languages are non-empty; "
         "distinct = distinct encoded pairs; deep_pair family: of_length(k) vs of_length(k+1), {w} vs {w'} with |w| = 12..20 "
         "differing in the last symbol, unary cycles (languages that differ only on one long word); empty-alphabet "
-        "DFAs; every cached query (isempty / isfinite / maximum_word_length) is called a second time on the same object "
+        "DFAs; pairs sharing one transition table and final set but started in different states; derived-after-query "
+        "(query A, then B = A.complement(minify=False) / to_complete / copy / …, then query and compare B); "
+        "mutable-automata option with plain set/dict containers, queries first, then all comparisons judged on the "
+        "definition as built; every cached query (isempty / isfinite / maximum_word_length) is called a second time on the same object "
         "and once more after another operation; probe family: the same queries called on a temporary (an object no "
         "variable refers to) — open finding C06:cached-query-on-temporary")
 ASSUMPTIONS = ["operands are valid DFAs over the same alphabet (different alphabets are outside the property)",
@@ -101,13 +104,21 @@ def is_finite(d: DFA) -> bool:
 
 
 @guarded
-def do_cmp(ctx: Ctx, A: DFA, B: DFA, origin: str):
+def do_cmp(ctx: Ctx, A: DFA, B: DFA, origin: str, refA=None, refB=None, history=None):
+    """refA / refB: the operands' definitions AS BUILT (frozen reference objects) when A / B are live objects
+    that earlier calls may have disturbed (mutable-automata option, shared caches): the real comparisons are
+    asked of A and B, the oracle and the model see the references."""
     drv = ctx.driver("drv_dfa_ops")
-    encA, stA, sy = enc_dfa(A)
-    encB, stB, _ = enc_dfa(B, sy=sy)
-    replay = dict(op="cmp", A=repr(A), B=repr(B))
     impl = [call(f) for f in (lambda: A == B, lambda: A != B, lambda: A <= B, lambda: A < B, lambda: A >= B,
                               lambda: A > B, lambda: A.issubset(B), lambda: A.issuperset(B), lambda: A.isdisjoint(B))]
+    # NB: never `refA or A` — bool(DFA) is len(DFA), which raises for an infinite language
+    A = A if refA is None else refA
+    B = B if refB is None else refB
+    replay = dict(op="cmp", A=repr(A), B=repr(B))
+    if history:
+        replay["history"] = history
+    encA, stA, sy = enc_dfa(A)
+    encB, stB, _ = enc_dfa(B, sy=sy)
     want = truth(A, B)
     ctx.stat(origin)
     ok = True
@@ -115,7 +126,8 @@ def do_cmp(ctx: Ctx, A: DFA, B: DFA, origin: str):
         if got != ("ok", w):
             ok = False
             wit = witness(A, B, name)
-            ctx.prop_fail(f"A {name} B answered {got[1] if got[0]=='ok' else 'raised '+got[1]} but the languages say {w}"
+            ctx.prop_fail((f"after [{history}]: " if history else "")
+                          + f"A {name} B answered {got[1] if got[0]=='ok' else 'raised '+got[1]} but the languages say {w}"
                           + (f" (witness word {wit!r}: A accepts {A.accepts_input(wit)}, B accepts {B.accepts_input(wit)})" if wit is not None else ""),
                           dict(replay, comparison=name, witness=wit))
     nt = reachable_count(A) >= 2 and reachable_count(B) >= 2 and not is_empty(A) and not is_empty(B)
@@ -141,24 +153,29 @@ def do_cmp(ctx: Ctx, A: DFA, B: DFA, origin: str):
 
 
 @guarded
-def do_emptyfin(ctx: Ctx, A: DFA, origin: str, model_max_states: int = 7):
+def do_emptyfin(ctx: Ctx, A: DFA, origin: str, model_max_states: int = 7, ref=None, history=None):
     drv = ctx.driver("drv_dfa_ops")
-    encA, stA, sy = enc_dfa(A)
-    replay = dict(op="emptyfin", A=repr(A))
+    O = A if ref is None else ref  # the definition as built: what the oracle and the model see
+    encA, stA, sy = enc_dfa(O)
+    replay = dict(op="emptyfin", A=repr(O))
+    if history:
+        replay["history"] = history
     e, f = call(lambda: A.isempty()), call(lambda: A.isfinite())
-    we, wf = is_empty(A), is_finite(A)
+    we, wf = is_empty(O), is_finite(O)
     ctx.stat(origin)
     ctx.stat("empty" if we else ("finite" if wf else "infinite"))
     ok = True
     if e != ("ok", we):
         ok = False
-        ctx.prop_fail(f"isempty answered {e} but the language is {'empty' if we else 'non-empty'}", replay)
+        ctx.prop_fail((f"after [{history}]: " if history else "")
+                      + f"isempty answered {e} but the language is {'empty' if we else 'non-empty'}", replay)
     if f != ("ok", wf):
         ok = False
-        ctx.prop_fail(f"isfinite answered {f} but the language is {'finite' if wf else 'infinite'}", replay)
-    ctx.case(("emptyfin", encA) if reachable_count(A) >= 2 and not we else None)
+        ctx.prop_fail((f"after [{history}]: " if history else "")
+                      + f"isfinite answered {f} but the language is {'finite' if wf else 'infinite'}", replay)
+    ctx.case(("emptyfin", encA) if reachable_count(O) >= 2 and not we else None)
     mwl = call(lambda: A.maximum_word_length())
-    if len(A.states) <= model_max_states:
+    if len(O.states) <= model_max_states:
         line = drv.ask(toks("DFA_EMPTYFIN", encA)).split()
         mod = (bool(int(line[0])), bool(int(line[1])))
         if ok and mod != (we, wf):
@@ -363,6 +380,97 @@ def variants(rng, A: DFA):
     return out
 
 
+# ------------------------------------------------------------------ round-3 families
+def same_table_other_init(rng, A: DFA):
+    """B = A's states, transition table and final set, started in another state: the right languages of two
+    states of one automaton (equal or not).  A comparison that looks at the tables only is wrong here."""
+    others = [q for q in A.states if q != A.initial_state]
+    if not others:
+        return None
+    q = rng.choice(sorted(others, key=repr))
+    return DFA(states=A.states, input_symbols=A.input_symbols, transitions=A.transitions, initial_state=q,
+               final_states=A.final_states, allow_partial=A.allow_partial)
+
+
+QUERIES = [("isempty()", lambda d: d.isempty()), ("isfinite()", lambda d: d.isfinite()),
+           ("maximum_word_length()", lambda d: d.maximum_word_length()),
+           ("minimum_word_length()", lambda d: d.minimum_word_length()), ("len()", lambda d: len(d)),
+           ("cardinality()", lambda d: d.cardinality()), ("to_partial()", lambda d: d.to_partial()),
+           ("to_partial(minify=False)", lambda d: d.to_partial(minify=False)), ("minify()", lambda d: d.minify()),
+           ("accepts_input(\"\")", lambda d: d.accepts_input("")), ("d == d", lambda d: d == d),
+           ("d.copy()", lambda d: d.copy())]
+DERIVE = [("complement(minify=False)", lambda d: d.complement(minify=False)), ("complement()", lambda d: d.complement()),
+          ("complement(retain_names=True, minify=False)", lambda d: d.complement(retain_names=True, minify=False)),
+          ("to_complete()", lambda d: d.to_complete()), ("to_partial(minify=False)", lambda d: d.to_partial(minify=False)),
+          ("copy()", lambda d: d.copy()), ("minify(retain_names=True)", lambda d: d.minify(retain_names=True)),
+          ("union(d, minify=False)", lambda d: d.union(d, minify=False)), ("~d", lambda d: ~d)]
+
+
+def derived_after_query(ctx: Ctx, n: int):
+    """Query A first (the cached queries fill per-object memo tables), THEN derive B from A, then ask B the
+    same questions and compare B with A and with a third DFA — every answer judged by the oracles on B's own
+    definition.  A derived object that inherits its parent's memo tables answers for the wrong language."""
+    rng = ctx.rng
+    for _ in range(n):
+        al = rng.choice(gen.ALPHABETS)
+        A = gen.rand_dfa(rng, 5, al, partial=False if rng.random() < 0.6 else None)
+        hist = []
+        for name, q in rng.sample(QUERIES, rng.randint(1, 3)):
+            call(lambda: q(A))
+            hist.append("A." + name if not name.startswith(("len", "d ")) else name)
+        dname, f = rng.choice(DERIVE)
+        res = call(lambda: f(A))
+        if res[0] == "err":
+            ctx.prop_fail(f"after [{'; '.join(hist)}]: A.{dname} raised {res[1]}", dict(op="derived", A=repr(A), history=hist))
+            continue
+        B = res[1]
+        h = "; ".join(hist) + f"; B = A.{dname}"
+        ctx.stat("derived_" + dname.split("(")[0])
+        do_emptyfin(ctx, B, "derived_after_query", history=h)
+        do_emptyfin(ctx, A, "derived_after_query", history=h)
+        do_cmp(ctx, B, A, "derived_after_query", history=h)
+        C = gen.rand_dfa(rng, 4, al)
+        if rng.random() < 0.5:
+            do_cmp(ctx, C, B, "derived_after_query", history=h)
+        else:
+            do_cmp(ctx, B, C, "derived_after_query", history=h)
+
+
+def mutable_option_family(ctx: Ctx, n: int):
+    """allow_mutable_automata=True: operands built from PLAIN dict/set containers (which the library then
+    stores as they are).  Queries / conversions are called first; afterwards all nine comparisons and
+    isempty/isfinite are judged against the definition AS BUILT (a frozen reference object made from the same
+    data before the option was switched on).  A library function that mutates a container it was handed
+    (e.g. uses final_states as its own work set) makes the later answers wrong."""
+    import automata.base.config as global_config
+    rng = ctx.rng
+    for _ in range(n):
+        al = rng.choice(gen.ALPHABETS)
+        refs = [gen.rand_dfa(rng, 5, al), gen.rand_dfa(rng, 5, al)]
+        global_config.allow_mutable_automata = True
+        try:
+            live = [DFA(states=set(r.states), input_symbols=set(r.input_symbols),
+                        transitions={k: dict(row) for k, row in r.transitions.items()},
+                        initial_state=r.initial_state, final_states=set(r.final_states),
+                        allow_partial=r.allow_partial) for r in refs]
+            hist = []
+            for i, d in enumerate(live):
+                for name, q in rng.sample(QUERIES, rng.randint(0, 3)):
+                    call(lambda: q(d))
+                    hist.append(f"{'AB'[i]}.{name}")
+            h = "allow_mutable_automata=True, plain set/dict containers; " + "; ".join(hist)
+            ctx.stat("mutable_option_family")
+            do_cmp(ctx, live[0], live[1], "mutable_option", refA=refs[0], refB=refs[1], history=h)
+            do_cmp(ctx, live[1], live[0], "mutable_option", refA=refs[1], refB=refs[0], history=h)
+            do_emptyfin(ctx, live[0], "mutable_option", ref=refs[0], history=h)
+            for r, d in zip(refs, live):
+                if (set(d.states), set(d.final_states), d.initial_state, {k: dict(v) for k, v in d.transitions.items()}) != \
+                        (set(r.states), set(r.final_states), r.initial_state, {k: dict(v) for k, v in r.transitions.items()}):
+                    ctx.stat("mutable_option_definition_changed")
+        finally:
+            global_config.allow_mutable_automata = False
+
+
 def none_row_corpus(ctx: Ctx):
     """Triggers of the repaired defect behind /repo f47420f: a transition row keyed by None (rows keyed by
     non-states pass validation in general).  The definition must be refused now; if a tree accepts it, the
@@ -392,6 +500,8 @@ def run(ctx: Ctx):
     rng = ctx.rng
     probe_temporaries(ctx)
     none_row_corpus(ctx)
+    derived_after_query(ctx, ctx.budget(250, 6000))
+    mutable_option_family(ctx, ctx.budget(250, 6000))
     ea = empty_alphabet_dfas()
     for a in ea:
         do_emptyfin(ctx, a, "empty_alphabet")
@@ -424,6 +534,11 @@ def run(ctx: Ctx):
     for _ in range(ctx.budget(2500, 50000)):
         al = rng.choice(gen.ALPHABETS)
         A = gen.rand_dfa(rng, 6, al)
+        if rng.random() < 0.15:
+            B = same_table_other_init(rng, A)
+            if B is not None:
+                do_cmp(ctx, A, B, "same_table_other_init")
+                do_cmp(ctx, B, A, "same_table_other_init")
         if rng.random() < 0.5:
             B = gen.rand_dfa(rng, 6, al)
             do_cmp(ctx, A, B, "random_pair")
@@ -438,6 +553,8 @@ def run(ctx: Ctx):
 
 def search(ctx: Ctx):
     rng = ctx.rng
+    derived_after_query(ctx, ctx.budget(500, 3000))
+    mutable_option_family(ctx, ctx.budget(500, 3000))
     for _ in range(ctx.budget(15000, 80000)):
         if ctx.n_prop_fails:
             return
@@ -453,6 +570,17 @@ def replay(ctx: Ctx, path: str) -> int:
     data = json.load(open(path))
     rp = data.get("replay", data)
     env = {"DFA": DFA, "frozenset": frozenset}
+    if rp.get("history"):
+        # history-dependent case (calls made on the live objects before the comparison): the recorded
+        # definitions alone do not reproduce it — re-run the two history families
+        derived_after_query(ctx, 400)
+        mutable_option_family(ctx, 400)
+        if [f for f in ctx.prop_fails if f["key"] is None]:
+            print(f"VIOLATION property=C06 replay={path}")
+            print("  " + [f for f in ctx.prop_fails if f["key"] is None][0]["what"])
+            return 1
+        print("replay: property holds on the history families now")
+        return 0
     if rp["op"] == "none_row":
         none_row_corpus(ctx)
         if ctx.prop_fails:
